@@ -64,9 +64,20 @@ pub fn judge(scn: &Scenario, res: &ExecResult, _base: Option<&ExecResult>) -> Ve
     if res.cut.is_some() || res.rounds_run < scn.horizon + scn.probe {
         return out;
     }
+    // an idle (stalled) sender only transmits every 200 ms, so the silence a receiver observes
+    // can outlast the outage itself by up to that interval plus a round trip
+    let round_ms = scn.round_us as f64 / 1000.0;
+    let longest_ms = scn.outages.iter().map(|o| o.len).max().unwrap_or(0) as f64 * round_ms;
+    let timeout_ms = scn.peers.iter().map(|p| p.timeout_ms).min().unwrap_or(2000) as f64;
+    let within_margin = longest_ms + 200.0 + (2.0 * scn.latency as f64 + 3.0) * round_ms >= timeout_ms;
     for (ni, nt) in res.nodes.iter().enumerate() {
         for e in &nt.events {
             if let Ev::Disconnected { addr } = e.2 {
+                if within_margin {
+                    out.push(v("disconnected-by-outage-within-keepalive-margin", ni, e.0, format!(
+                        "Disconnected {{ addr: {addr} }} raised in round {} after an outage of {longest_ms:.0} ms (timeout {timeout_ms:.0} ms): the outage ended before the timeout, but the idle peers only transmit every 200 ms, so the silence lasted past it", e.0)));
+                    return out;
+                }
                 out.push(v("disconnected-by-transient-fault", ni, e.0, format!("Disconnected {{ addr: {addr} }} raised in round {} although every fault was shorter than the timeout", e.0)));
             }
         }
@@ -210,6 +221,11 @@ pub fn c05() -> i32 {
                                 s.name = format!("{} burst start={start} len={len} links-mask={mask:b}", base.name);
                                 s.horizon = start + len + 1;
                                 s.probe = probe_rounds(w, 1);
+                                // within a keep-alive interval of the timeout a disconnect can
+                                // happen (known finding); the timeline oracle has no truth then
+                                if len as f64 * 16.667 + 200.0 + 5.0 * 16.667 >= 2000.0 {
+                                    s.checks = CK_C02 | CK_C04;
+                                }
                                 scns.push(s);
                             }
                             len += if t || len < 24 { 1 } else { 4 };
